@@ -76,6 +76,29 @@ def run(chk):
                     nb = r.bytes(L)
                     if L and r.chance(1, 2) and fl[i] not in ('.', '-'): nb = (bytes.fromhex(fl[i]) * (L // max(1, base) + 1))[:L]
                     cases.append((' '.join(fl[:i] + [hx(nb)] + fl[i + 1:]), 'randlen_%s_f%d' % (fl[0], i)))
+        if g == 'rangeproof':
+            # every size the proof header can announce: exponent, mantissa 1..64 (1..32 rings), optional minimum value, followed by bytes that
+            # are long enough to pass the length checks (the exact minimum, and the maximum proof size) - the arrays indexed by ring and by
+            # digit are sized for the maximum, which only such headers reach
+            tmpl = {}
+            for c, line in lines:
+                fl = line.split(' ')
+                if fl[0] in ('rangeproof_verify', 'rangeproof_rewind', 'rangeproof_info') and fl[0] not in tmpl: tmpl[fl[0]] = fl
+            pidx = {'rangeproof_verify': 2, 'rangeproof_rewind': 3, 'rangeproof_info': 1}
+            mants = sorted(set([1, 2, 3, 4, 31, 32, 33, 61, 62, 63, 64] + [1 + r.below(64) for _ in range(chk.scale(4, 40))]))
+            for op, fl in sorted(tmpl.items()):
+                i = pidx[op]
+                for mant in mants:
+                    for exp in (0, 18) if chk.quick() else (0, 1, 7, 18, 19, 31):
+                        for minflag in (0, 1):
+                            hdr = bytes([0x40 | (0x20 if minflag else 0) | exp, mant - 1]) + (r.bytes(8) if minflag else b'')
+                            rings = mant // 2 + (mant & 1); npub = (mant // 2) * 4 + (mant & 1) * 2
+                            need = len(hdr) + ((rings + 6) >> 3) + 32 * (npub + rings - 1) + 32
+                            for L in ([need] if op == 'rangeproof_info' else [need, 5134, need - 1]):
+                                body = r.bytes(max(0, L - len(hdr)))
+                                if r.chance(1, 2): body = bytes(len(body))      # all sign bits clear / all-zero digits
+                                elif r.chance(1, 2): body = b'\xff' * len(body)
+                                cases.append((' '.join(fl[:i] + [hx(hdr + body)] + fl[i + 1:]), 'header_sweep_%s' % op))
         ri = vlib.run_cases(asan, [c[0] for c in cases], (), 12); rm = vlib.run_cases(model, [c[0] for c in cases])
         bad = 0
         for (line, cls), a, b in zip(cases, ri, rm):
